@@ -175,11 +175,37 @@ def fresh_rule(model: Model, res, rule: str = "R-FRESH", allow: Optional[Dict[st
         for f in funcs:
             ctx_names = {s.targets[0].id for s in ast.walk(f.node) if isinstance(s, ast.Assign) and isinstance(s.targets[0], ast.Name)
                          and isinstance(s.value, ast.Call) and ast.unparse(s.value.func).split(".")[-1] == "getcontext"}
+            def _is_ctx_attr(t):
+                return isinstance(t, ast.Attribute) and ((isinstance(t.value, ast.Call) and ast.unparse(t.value.func).split(".")[-1] == "getcontext")
+                                                         or (isinstance(t.value, ast.Name) and t.value.id in ctx_names))
+
+            # a change that a `finally` clause undoes is scoped: the write inside the try body, the write just before the
+            # try statement and the restoring write itself are not reports
+            scoped = set()
+            for blk in ast.walk(f.node):
+                for fld in ("body", "orelse", "finalbody"):
+                    stmts = getattr(blk, fld, None)
+                    if not isinstance(stmts, list):
+                        continue
+                    for i, st in enumerate(stmts):
+                        if isinstance(st, ast.Try) and st.finalbody:
+                            restored = {t.attr for x in st.finalbody for y in ast.walk(x) if isinstance(y, ast.Assign)
+                                        for t in y.targets if _is_ctx_attr(t)}
+                            if not restored:
+                                continue
+                            inside = [y for x in st.body + st.finalbody + st.orelse + [h for hh in st.handlers for h in hh.body] for y in ast.walk(x)]
+                            before = [y for y in ast.walk(stmts[i - 1])] if i > 0 else []
+                            for y in inside + before:
+                                if isinstance(y, (ast.Assign, ast.AugAssign)):
+                                    for t in (y.targets if isinstance(y, ast.Assign) else [y.target]):
+                                        if _is_ctx_attr(t) and t.attr in restored:
+                                            scoped.add(id(y))
             for s in ast.walk(f.node):
                 tgts = s.targets if isinstance(s, ast.Assign) else ([s.target] if isinstance(s, ast.AugAssign) else [])
+                if id(s) in scoped:
+                    continue
                 for t in tgts:
-                    if isinstance(t, ast.Attribute) and ((isinstance(t.value, ast.Call) and ast.unparse(t.value.func).split(".")[-1] == "getcontext")
-                                                         or (isinstance(t.value, ast.Name) and t.value.id in ctx_names)):
+                    if _is_ctx_attr(t):
                         report("S5", f.loc(s), f.qualname, f"decimal context {t.attr}",
                                f"{f.qualname} changes the process-wide decimal context (`{ast.unparse(s)[:60]}`): every computation that "
                                f"runs afterwards in this process - other markets, other strategies - uses the changed {t.attr} unless "
